@@ -155,14 +155,24 @@ def _fmt_case(c) -> str:
 
 
 def run_cases(tag: str, checker: str, cases: list[list[int]], workdir: Path, shard: int = 200,
-              jobs: int = 14, timeout: int = 900, fn: str = "check_case") -> list[int]:
+              jobs: int = 14, timeout: int = 900, fn: str = "check_case", max_ints: int = 40000) -> list[int]:
     """Evaluate [failing fn cases] in Coq; returns global indices of failing cases.
     Raises CoqError if a shard does not evaluate (counts as a broken correspondence)."""
     if not cases:
         return []
     gen = Path(workdir) / "coqgen"
     gen.mkdir(parents=True, exist_ok=True)
-    shards = [(k, cases[k : k + shard]) for k in range(0, len(cases), shard)]
+    # shards are bounded both in number of cases and in size of the literal (coqc's parser overflows its
+    # stack on multi-megabyte list literals)
+    shards, cur, cur0, size = [], [], 0, 0
+    for k, c in enumerate(cases):
+        if cur and (len(cur) >= shard or size + len(c) > max_ints):
+            shards.append((cur0, cur))
+            cur, cur0, size = [], k, 0
+        cur.append(c)
+        size += len(c)
+    if cur:
+        shards.append((cur0, cur))
 
     def one(item):
         k, cs = item
@@ -174,8 +184,8 @@ def run_cases(tag: str, checker: str, cases: list[list[int]], workdir: Path, sha
             f"Definition cases : list (list Z) := [\n {body}\n].\n"
             f"Eval vm_compute in (failing {fn} cases).\n"
         )
-        p = subprocess.run(["coqc", "-Q", str(COQ), "Ladim", "-Q", str(gen), "Gen", str(f)], capture_output=True,
-                           text=True, timeout=timeout, cwd=gen)
+        p = subprocess.run(["bash", "-c", 'ulimit -s unlimited 2>/dev/null; exec coqc -Q "$0" Ladim -Q "$1" Gen "$2"', str(COQ), str(gen), str(f)],
+                           capture_output=True, text=True, timeout=timeout, cwd=gen)
         if p.returncode != 0:
             raise CoqError(f"shard {f.name} failed: {(p.stdout + p.stderr)[-1500:]}")
         flat = " ".join(p.stdout.split())
